@@ -251,3 +251,11 @@ def run(ctx):
 
 SWEEP = ["reusable/test_page_allocator.cpp",
          "concurrent/test_object_pool.cpp"]
+
+
+# name anchors (validated by tools/rename_sweep.py; a vanished name is exit 2, see core.check_anchor_names)
+ANCHORS = {
+    'pop_n': ['^babylon::ConcurrentBoundedQueue(<|$)'],
+    'push_n': ['^babylon::ConcurrentBoundedQueue(<|$)'],
+    'try_pop_n': ['^babylon::ConcurrentBoundedQueue(<|$)'],
+}
